@@ -125,6 +125,12 @@ func c08Gen(rt *rapid.T) wProg {
 			p.Ops = append(p.Ops, wOp{K: "set", S: 0, T: "g0", A: "given", U: rapid.IntRange(1, 2).Draw(rt, "heir"), B: gPick(rt, []string{"JRWPASDO", "JRWPSO"}, "grant")},
 				wOp{K: gPick(rt, []string{"reload", "restart"}, "how"), T: "g0"})
 			p.Ops = append(p.Ops, wOp{K: "get", S: 0, T: "g0", A: "tags"}, wOp{K: "set", S: 0, T: "g0", A: "tags", X: []string{"alpha"}})
+		case x < 10:
+			// a store failure in the middle of a request which makes two writes
+			s := rapid.IntRange(0, len(p.Sess)-1).Draw(rt, "s")
+			v := gPick(rt, []string{"a", "b", "c"}, "val")
+			p.Ops = append(p.Ops, wOp{K: "fault", N: rapid.IntRange(1, 2).Draw(rt, "k")},
+				wOp{K: "set", S: s, T: gPick(rt, []string{"g0", "g0", "me"}, "dt"), A: "desc", H: map[string]any{"public": map[string]any{"fn": v}, "private": map[string]any{"c": v}}})
 		case x < 72:
 			p.Ops = append(p.Ops, anyOp())
 		case x < 84:
